@@ -158,6 +158,9 @@ def _commit_ds(n=2):
 
 def run_case(case):
     common.import_repo()
+    if 'stack' in case:
+        from .. import svc_stack
+        return svc_stack.run_case(case, 'c17:')
     from pynetdicom2 import sopclass, applicationentity, statuses, exceptions
     from ..pdugen import uid_of_len
     svc, out, mid, pc = case['svc'], case['outcome'], case['mid'], case['pc']
@@ -338,3 +341,8 @@ def run_case(case):
     return {'viol': viol, 'case': case if viol else None, 'key': (svc, str(out), mid, pc, case['uidlen']),
             'count': {'responses_checked': len(parsed)},
             'sample': dict(case, responses=len(parsed)) if (mid, pc) == (256, 127) and svc in ('move', 'get_store') else None}
+
+
+def finalize(rep, tier, seed):
+    from .. import svc_stack
+    svc_stack.extend(rep, ID, tier, seed, 'vp.checks.c17')
